@@ -54,7 +54,8 @@ def gen_props() -> str:
         witness = [t for t in th if "witness" in t or t.endswith("_fails")]
         models = sorted((ROOT / "lean" / "Kopf" / "Model").glob(f"{pid}_*.lean"))
         out.append(f"### {pid} — {p['title']}\n")
-        out.append(f"*Level*: `{getattr(mod, 'LEVEL', '?')}` — {getattr(mod, 'LEVEL_TEXT', '')}\n")
+        out.append(f"*Technique level*: `{getattr(mod, 'LEVEL', '?')}`; *strength*: **{getattr(mod, 'STRENGTH', 'partial')}** — "
+                   f"{getattr(mod, 'LEVEL_TEXT', '')}\n")
         if models:
             out.append("*Model*:\n")
             for m in models:
